@@ -126,7 +126,7 @@ impl Lay for S6 {
         self.0[0] as u8
     }
     fn intact(&self) -> bool {
-        self.0[1] == !self.0[0] && self.0[2] == 0x1234 && (self as *const Self as usize) % 2 == 0
+        self.0[1] == !self.0[0] && self.0[2] == 0x1234 && (std::hint::black_box(self as *const Self) as usize) % 2 == 0
     }
 }
 lay_common!(S6);
@@ -145,7 +145,7 @@ impl Lay for Z16 {
         0
     }
     fn intact(&self) -> bool {
-        (self as *const Self as usize) % 16 == 0
+        (std::hint::black_box(self as *const Self) as usize) % 16 == 0
     }
 }
 lay_common!(Z16);
@@ -255,7 +255,7 @@ impl Lay for A32 {
         self.0
     }
     fn intact(&self) -> bool {
-        self.1 == [!self.0; 7] && (self as *const Self as usize) % 32 == 0
+        self.1 == [!self.0; 7] && (std::hint::black_box(self as *const Self) as usize) % 32 == 0
     }
 }
 lay_common!(A32);
@@ -274,7 +274,7 @@ impl Lay for A64 {
         self.0
     }
     fn intact(&self) -> bool {
-        (self as *const Self as usize) % 64 == 0
+        (std::hint::black_box(self as *const Self) as usize) % 64 == 0
     }
 }
 lay_common!(A64);
